@@ -20,9 +20,13 @@ KF_ID = "two-sided-ageing"
 FP_SPEC = {"cloudsync/sync/state.py": ["SyncState.change", "SyncState.mark_changed", "SyncState.updated", "SyncState.finished",
                                        "SyncEntry.punt", "SyncEntry.is_related_to", "SyncEntry.__setattr__", "SideState.set_aged",
                                        "SideState.__setattr__", "SyncState.update", "SyncState.update_entry",
-                                       "SyncState._change_path", "SyncState._change_oid", "SyncState.__init__"],
+                                       "SyncState._change_path", "SyncState._change_oid", "SyncState.__init__",
+                                       "SyncEntry.get_latest", "SyncState.unconditionally_get_latest",
+                                       "SyncState.unconditionally_get_no_info"],
            "cloudsync/sync/manager.py": ["SyncManager.do", "SyncManager.__init__", "SyncManager.finished",
                                          "SyncManager._sync_one_entry"],
+           "cloudsync/runnable.py": ["Runnable.run", "Runnable.backoff", "Runnable.nothing_happened",
+                                     "Runnable.__increment_backoff"],
            "cloudsync/cs.py": ["CloudSync.aging"]}
 TOL = 1e-9
 NEAR = 1e-6
@@ -80,7 +84,23 @@ class Env:
         import cloudsync.sync.state as S
         from cloudsync.providers.mock import MockProvider
         from cloudsync.types import FILE, LOCAL, REMOTE
-        self.S, self.MockProvider, self.FILE = S, MockProvider, FILE
+        from cloudsync.types import OInfo
+
+        class ScriptedProvider(MockProvider):
+            """id-style MockProvider whose info_oid answers are scripted by the harness (the model's oracle parameter);
+            ids the script does not mention fall through to the real mock file system"""
+            def __init__(self, *a, **kw):
+                super().__init__(*a, **kw)
+                self.script = {}
+
+            def info_oid(self, oid, use_cache=True):
+                if oid in self.script:
+                    path = self.script[oid]
+                    if path is None:
+                        return None
+                    return OInfo(otype=FILE, oid=oid, hash=b"h", path=path, size=0, mtime=None)
+                return super().info_oid(oid, use_cache=use_cache)
+        self.S, self.MockProvider, self.FILE, self.ScriptedProvider = S, MockProvider, FILE, ScriptedProvider
         assert (LOCAL, REMOTE) == (0, 1)
         self.clock = VClock()
         self._time = S.time
@@ -112,10 +132,11 @@ class RealTable:
     def __init__(self, env, cfg):
         self.env, self.cfg = env, cfg
         env.clock.t = float(cfg["t0"])
-        pl, pr = env.MockProvider(False, True), env.MockProvider(False, True)
+        pl, pr = env.ScriptedProvider(False, True), env.ScriptedProvider(False, True)
         pl.default_sleep = float(cfg["punt"][0] * 10)
         pr.default_sleep = float(cfg["punt"][1] * 10)
         self.pl = pl
+        self.provs = (pl, pr)
         self.state = env.S.SyncState((pl, pr), prioritize=lambda side, path: num(self.prio(side, path)))
         assert self.state._punt_secs == (float(cfg["punt"][0]), float(cfg["punt"][1]))
         assert type(self.state._changeset_storage) is OSet
@@ -139,7 +160,8 @@ class RealTable:
 
     def obs(self):
         return (self.state._last_changed_time,
-                [(i, e.priority, e[0].changed, e[1].changed) for i, e in enumerate(self.ents)],
+                [(i, e.priority, e[0].changed, e[1].changed, e[0].path, e[1].path, bool(e[0].oid), bool(e[1].oid))
+                 for i, e in enumerate(self.ents)],
                 [self.eid(e) for e in self.pending()])
 
     def apply(self, op):
@@ -157,6 +179,10 @@ class RealTable:
                 self.ents.append(e)
             self.oids.add(oid)
             return ("id", self.eid(e))
+        if k == "info":
+            _, s, oid, path = op
+            self.provs[s].script[oid] = path
+            return ("hdr",)
         if k == "attach":
             _, s, i, oid, path = op
             e = self.ent(i)
@@ -168,8 +194,6 @@ class RealTable:
         elif k == "mark":
             _, t, s, i = op
             e = self.ent(i)
-            if not e[s].oid:
-                raise Invalid()
             clock.t = float(t)
             st.mark_changed(s, e)
         elif k == "punt":
@@ -179,10 +203,7 @@ class RealTable:
         elif k == "clear":
             self.ent(op[2])[op[1]].changed = 0
         elif k == "setaged":
-            e = self.ent(op[2])
-            if not (e[op[1]].oid and e[op[1]].path):
-                raise Invalid()
-            e[op[1]].set_aged()
+            self.ent(op[2])[op[1]].set_aged()
         elif k == "syncpath":
             self.ent(op[2])[op[1]].sync_path = op[3]
         elif k == "finished":
@@ -195,7 +216,7 @@ class RealTable:
                 r = st.change(num(age))
             finally:
                 clock.t = keep
-            return ("pick", None if r is None else self.eid(r))
+            return ("pick", None if r is None else self.eid(r), fragile(self, now, age))
         else:
             raise HarnessError("bad op %r" % (op,))
         return ("ok",)
@@ -208,7 +229,10 @@ def op_line(op, table):
     k = op[0]
     if k == "update":
         _, t, s, oid, path = op
-        return "update %s %s %s %s %s" % (SIDE[s], enc_str(oid), enc_str(path), fr(table.prio(s, path)), fr(t))
+        return "update %s %s %s %s %s" % (SIDE[s], enc_str(oid), enc_str(path), fr(table.prio(s, path) if path else 0), fr(t))
+    if k == "info":
+        _, s, oid, path = op
+        return "info %s %s %s %s" % (SIDE[s], enc_str(oid), enc_str(path), fr(table.prio(s, path) if path else 0))
     if k == "attach":
         _, s, i, oid, path = op
         return "attach %s %d %s %s %s" % (SIDE[s], i, enc_str(oid), enc_str(path), fr(table.prio(s, path)))
@@ -335,10 +359,18 @@ class Gen:
                 cands = [(e[s].oid, e[s].path) for e in tb.ents if e[s].oid]
                 if cands:
                     oid, path = rng.choice(cands)
-                    if rng.random() < 0.5:
+                    q = rng.random()
+                    if q < 0.4:
                         path = rng.choice(PATHS)
+                    elif q < 0.6:
+                        path = None                      # an event that carries no path
                     return [("update", self.tick(), s, oid, path)]
-            return [("update", self.tick(), s, self.fresh(s), rng.choice(PATHS))]
+            oid = self.fresh(s)
+            if rng.random() < 0.22:
+                # id-style event without a path: the fill-in loop of change() will ask the provider
+                return [("info", s, oid, rng.choice(PATHS) if rng.random() < 0.75 else None),
+                        ("update", self.tick(), s, oid, None)]
+            return [("update", self.tick(), s, oid, rng.choice(PATHS))]
         i = rng.randrange(n)
         e = tb.ents[i]
         if r < 0.30:
@@ -351,6 +383,8 @@ class Gen:
                 return [("attach", s, j, self.fresh(s), path)]
         if r < 0.42:
             sides = [s for s in (0, 1) if e[s].oid]
+            if rng.random() < 0.25:
+                sides = [0, 1]                            # also sides the engine has no id for
             if sides:
                 return [("mark", self.tick(), rng.choice(sides), i)]
         if r < 0.54:
@@ -375,11 +409,19 @@ class Gen:
             out = []
             for j in ([i] if rng.random() < 0.5 else rng.sample(range(n), min(n, rng.randint(2, 3)))):
                 sides = [s for s in (0, 1) if tb.ents[j][s].oid and tb.ents[j][s].path]
+                if rng.random() < 0.2:
+                    sides = [0, 1]
                 if sides:
                     out.append(("setaged", rng.choice(sides), j))
             if out:
                 return out
-        if r < 0.79:
+        if r < 0.81:
+            # the provider's answer for an id whose path the engine does not know yet changes
+            cands = [(s, x[s].oid) for x in tb.ents for s in (0, 1) if x[s].oid and not x[s].path]
+            if cands:
+                s, oid = rng.choice(cands)
+                return [("info", s, oid, rng.choice(PATHS) if rng.random() < 0.7 else None)]
+        if r < 0.84:
             s = rng.randint(0, 1)
             return [("syncpath", s, i, e[s].path if e[s].path and rng.random() < 0.6 else rng.choice(PATHS))]
         self.tick()
@@ -398,7 +440,7 @@ def gen_and_run(env, rng, nops):
             lines.append(op_line(op, tb))
             r = tb.apply(op)
             ops.append(op)
-            reals.append(r if op[0] == "change" else r + (tb.obs(),))
+            reals.append(r + (tb.obs(),))
     # closing sweep: every age at a few times, so that each table is queried in its final state
     for age in sorted(set(AGES)):
         for op in [("change", g.t, age), ("change", g.t + age, age), ("change", g.t + 1000, age)]:
@@ -407,7 +449,7 @@ def gen_and_run(env, rng, nops):
                 continue
             lines.append(op_line(op, tb))
             ops.append(op)
-            reals.append(tb.apply(op))
+            reals.append(tb.apply(op) + (tb.obs(),))
     return cfg, tb, lines, reals, ops, g
 
 
@@ -431,9 +473,13 @@ def compare(real, mline):
     if real[0] == "hdr":
         return None if mline == "ok" else "header rejected: " + mline
     if real[0] == "pick":
-        want = "pick %s" % ("~" if real[1] is None else real[1])
-        return None if mline == want else "implementation returned %s, model %s" % (want, mline)
-    if toks and toks[0] == "id":
+        if len(toks) < 2 or toks[0] != "pick":
+            return "model answered " + mline
+        want = "~" if real[1] is None else str(real[1])
+        if toks[1] != want and not real[2]:
+            return "change(): implementation returned entry %s, model %s" % (want, toks[1])
+        toks = toks[2:]
+    elif toks and toks[0] == "id":
         if real[0] != "id" or int(toks[1]) != real[1]:
             return "entry used by update: implementation %r, model %s" % (real[:2], toks[1])
         toks = toks[2:]
@@ -452,11 +498,13 @@ def compare(real, mline):
     ments = [x.split() for x in body[1].split(";") if x.strip()]
     if len(ments) != len(ents):
         return "number of entries: implementation %d, model %d" % (len(ents), len(ments))
-    for (i, prio, lc, rc), m in zip(ents, ments):
+    for (i, prio, lc, rc, lp, rp, _lo, _ro), m in zip(ents, ments):
         if int(m[0]) != i or not close(prio, F(m[1])):
             return "entry %d priority: implementation %r, model %s" % (i, prio, m[1])
         if not cmp_changed(lc, m[2]) or not cmp_changed(rc, m[3]):
             return "entry %d change times: implementation (%r, %r), model (%s, %s)" % (i, lc, rc, m[2], m[3])
+        if enc_str(lp) != m[4] or enc_str(rp) != m[5]:
+            return "entry %d paths: implementation (%r, %r), model (%s, %s)" % (i, lp, rp, dec_str(m[4]), dec_str(m[5]))
     mp = [int(x) for x in body[2].split()]
     if mp != pend:
         return "changeset (iteration order): implementation %r, model %r" % (pend, mp)
@@ -502,7 +550,8 @@ def query_stats(lines, reals, cov):
     """distribution of the change() queries, measured on the model's echo of the state (the last state line before the query)"""
     qh = {"queries": 0, "pick_none": 0, "pick_negative_priority": 0, "pick_aged": 0, "age_zero": 0,
           "pending_0": 0, "pending_1": 0, "pending_2_3": 0, "pending_4_plus": 0, "boundary_exact": 0, "key_tie_with_pick": 0,
-          "two_sided_pick_one_side_fresh": 0, "some_entry_not_eligible": 0}
+          "two_sided_pick_one_side_fresh": 0, "some_entry_not_eligible": 0, "fill_in_changed_state": 0,
+          "fill_in_set_a_path": 0, "pick_compared": 0, "pending_with_idless_changed_side": 0}
     sigs = set()
     last_obs = None
     for ln, r in zip(lines, reals):
@@ -515,8 +564,17 @@ def query_stats(lines, reals, cov):
             _, now, age = ln.split()
             now, age = F(now), F(age)
             et = float(now) - float(age)
-            ents = {i: (p, lc, rc) for i, p, lc, rc in last_obs[1]}
+            if last_obs is not None and last_obs[1] != r[-1][1]:
+                qh["fill_in_changed_state"] += 1
+                if any(a[4:6] != b[4:6] for a, b in zip(last_obs[1], r[-1][1])):
+                    qh["fill_in_set_a_path"] += 1
+            last_obs = r[-1]                      # the table after the fill-in loop: what the sort sees
+            qh["pick_compared"] += not r[2]
+            ents = {x[0]: x[1:4] for x in last_obs[1]}
             pend = [ents[i] for i in last_obs[2]]
+            full = {x[0]: x for x in last_obs[1]}
+            if any((truthy(full[i][2]) and not full[i][6]) or (truthy(full[i][3]) and not full[i][7]) for i in last_obs[2]):
+                qh["pending_with_idless_changed_side"] += 1
             qh["queries"] += 1
             qh["age_zero"] += age == 0
             n = len(pend)
@@ -646,6 +704,236 @@ def replay_two_sided_engine(env):
     return out
 
 
+# ------------------------------------------------------------------ the sync loop: real SyncManager.do vs Model/SchedLoop.lean
+
+LOOP_PATHS = ["/a%d" % i for i in range(1, 10)]          # flat: no entry is another's parent (finished() resets nothing)
+WORK = "FPQR"
+
+
+def loop_case(env, rng):
+    """one table + one script, run through the real Runnable.run / SyncManager.do / _sync_one_entry with the sync work
+    scripted (pre_sync/sync overridden) under the virtual clock.  Returns (lines, real results)."""
+    import cloudsync.sync.manager as M
+    import cloudsync.exceptions as ex
+    from cloudsync.notification import NotificationManager
+    clock = env.clock
+    prio = {}
+    for p in LOOP_PATHS:
+        if rng.random() < 0.3:
+            a = rng.choice([F(-1), F(1), F(2), F(1, 2), F(3)])
+            prio[p] = (str(a), str(a))
+    cfg = {"punt": (rng.choice([F(1, 4), F(1, 2), F(1, 8), F(1)]), rng.choice([F(1, 4), F(1, 2), F(1)])),
+           "t0": F(rng.randint(1000, 5000)), "prio": prio, "paths": list(LOOP_PATHS)}
+    tb = RealTable(env, cfg)
+    for pr in tb.provs:
+        pr.connect({"key": "k"})
+    lines, reals = header_lines(cfg, tb), []
+    reals += [("hdr",)] * len(lines)
+    t = F(cfg["t0"])
+    n_oid = [0]
+
+    def emit(op):
+        lines.append(op_line(op, tb))
+        r = tb.apply(op)
+        reals.append(r + (tb.obs(),))
+
+    def fresh(s):
+        n_oid[0] += 1
+        return "%s%d" % (SIDE[s], n_oid[0])
+    paths = rng.sample(LOOP_PATHS, rng.randint(2, 7))
+    for pth in paths:
+        s = rng.randint(0, 1)
+        t += rng.choice([F(1, 8), F(1, 4), F(1), F(2), F(5)])           # strictly increasing: every stamp is exact
+        emit(("update", t, s, fresh(s), pth))
+        i = len(tb.ents) - 1
+        if rng.random() < 0.3:
+            emit(("attach", 1 - s, i, fresh(1 - s), pth))
+            if rng.random() < 0.6:
+                t += rng.choice([F(1, 8), F(1), F(3)])
+                emit(("mark", t, 1 - s, i))
+        q = rng.random()
+        if q < 0.15:
+            emit(("punt", i))
+        elif q < 0.25:
+            emit(("setprio", i, rng.choice([F(-1), F(1), F(2), F(1, 2)])))
+        elif q < 0.32:
+            emit(("setaged", s, i))
+    # the loop's parameters (all dyadic, so the float arithmetic of Runnable is exact)
+    age = rng.choice([F(0), F(1, 2), F(1), F(2), F(10)])
+    sleep = rng.choice([F(1, 8), F(1, 4), F(1)])
+    mn, mx, mult = rng.choice([F(1, 4), F(1, 2), F(1)]), rng.choice([F(4), F(8), F(32)]), rng.choice([F(2), F(2), F(3, 2), F(4)])
+    b0 = rng.choice([F(0), F(0), F(0), mn])
+    t += rng.choice([F(0), F(1, 8), F(1), F(5), F(20)])
+    nsteps = rng.randint(3, 18)
+    bias = rng.choice(["mixed", "mixed", "fail", "finish"])
+    weights = {"mixed": [4, 2, 1, 3], "fail": [1, 3, 1, 6], "finish": [8, 1, 1, 1]}[bias]
+    script = [(rng.choices(WORK, weights)[0], rng.choice([F(0), F(0), F(1, 8), F(1, 2), F(2)])) for _ in range(nsteps)]
+    todo = list(script)
+    trace = []
+    keep_time = M.time
+
+    class T:
+        def time(self):
+            return clock.t
+
+        def sleep(self, secs):
+            clock.t += secs
+
+        def monotonic(self):
+            return clock.t
+
+    class Scripted(M.SyncManager):
+        """the real manager; only the sync work itself (pre_sync/sync) is scripted"""
+        def do(self):
+            self._step = todo.pop(0)
+            self._rec = [clock.t, None, [(tb.eid(e), e.priority, e[0].changed, e[1].changed) for e in tb.pending()]]
+            trace.append(self._rec)
+            return M.SyncManager.do(self)
+
+        def interruptable_sleep(self, secs):
+            clock.t += secs
+
+        def pre_sync(self, sync):
+            self._rec[1] = tb.eid(sync)
+            clock.t += float(self._step[1])
+            return False
+
+        def sync(self, sync):
+            w = self._step[0]
+            if w == "F":
+                for s_ in (0, 1):
+                    if sync[s_].changed:
+                        self.finished(s_, sync)
+                return True
+            if w == "P":
+                sync.punt()
+                return False
+            if w == "Q":
+                return False
+            if self._step[1] > 0:
+                raise ex.CloudTemporaryError("scripted")
+            raise RuntimeError("scripted")
+    smgr = None
+    try:
+        M.time = T()
+        clock.t = float(t)
+        smgr = Scripted(tb.state, tb.provs, lambda side, path: path, lambda *a: None,
+                        notification_manager=NotificationManager(lambda n: None), sleep=(float(sleep) * 4, float(sleep) * 4))
+        smgr.aging = float(age)
+        smgr.min_backoff, smgr.max_backoff, smgr.mult_backoff, smgr.in_backoff = float(mn), float(mx), float(mult), float(b0)
+        smgr.run(until=lambda: not todo, sleep=float(sleep))
+        final_backoff = smgr.in_backoff
+    finally:
+        M.time = keep_time
+        if smgr is not None:
+            smgr.done()
+    lines.append("loop %s %s %s %s %s %s %s %s" % (fr(age), fr(sleep), fr(mn), fr(mx), fr(mult), fr(b0), fr(t),
+                                                  " ".join("%s:%s" % (w, fr(dd)) for w, dd in script)))
+    reals.append(("loop", [tuple(x) for x in trace], final_backoff, script,
+                  {"age": float(age), "sleep": float(sleep), "min_backoff": float(mn), "max_backoff": float(mx),
+                   "mult_backoff": float(mult), "in_backoff": float(b0), "start": float(t), "config": cfg_json(cfg),
+                   "table_lines": lines[len(LOOP_PATHS) + 1:-1]}))
+    return lines, reals
+
+
+def loop_oracle(real):
+    """C17's loop-level statements on the implementation's trace (real SyncManager.do, scripted sync work)"""
+    import math
+    _, trace, _fb, script, prm = real
+    age = prm["age"]
+    n = len(trace)
+    base = {"parameters": {k: v for k, v in prm.items() if k not in ("config", "table_lines")}, "config": prm["config"],
+            "table": prm["table_lines"], "script": ["%s:%s" % (w, d) for w, d in script],
+            "trace": [(t, e) for t, e, _ in trace],
+            "how": "harness/c17_sched.py loop_case: the table is built with the listed calls, then the real Runnable.run/"
+                   "SyncManager.do runs under the virtual clock with pre_sync/sync scripted (F finish, P punt, Q requeue, R raise)"}
+    key = lambda x: (x[1], max(x[2] or 0, x[3] or 0))
+    for k, (t, a, snap) in enumerate(trace):
+        elig = [x for x in snap if spec_eligible(x[1], x[2], x[3], t, age)]
+        if a is None:
+            if elig:
+                return dict(base, statement="loop: an iteration idles although an entry is eligible", iteration=k, pending=snap)
+            continue
+        row = [x for x in snap if x[0] == a]
+        if not row or row[0] not in elig:
+            return dict(base, statement="loop_attempt_eligible: an entry is attempted (or re-attempted after a punt) before a change "
+                                        "of it has aged", iteration=k, pending=snap)
+        if any(key(x) < key(row[0]) for x in elig):
+            return dict(base, statement="loop: the attempted entry is not the most urgent eligible one", iteration=k, pending=snap)
+        if script[k][0] == "R" and k + 1 < n:
+            gap = trace[k + 1][0] - t
+            if gap + 1e-9 < min(prm["max_backoff"], prm["min_backoff"]) + float(script[k][1]):
+                return dict(base, statement="iter_raised_gap: after a failed attempt the loop must back off at least min_backoff",
+                            iteration=k, gap=gap)
+        # no starvation: every entry eligible now is attempted before the other entries have used up their potential
+        for y in elig:
+            if y[0] == a:
+                continue
+            pot = sum(int(math.floor(y[1] - z[1])) + 1 for z in snap if z[0] != y[0] and z[1] <= y[1])
+            m = next((j for j in range(k, n) if trace[j][1] == y[0]), n)
+            busy = sum(1 for j in range(k, m) if script[j][0] != "Q")
+            if busy > pot:
+                return dict(base, statement="loop_no_starvation: entry %d was eligible at iteration %d, yet %d non-requeue iterations "
+                                            "passed without attempting it; the other entries can account for at most %d"
+                                            % (y[0], k, busy, pot), iteration=k, pending=snap)
+    return None
+
+
+def compare_loop(real, mline):
+    trace, fb = real[1], real[2]
+    try:
+        body, mfb = mline.split("|")
+        mtr = [x.split() for x in body.split(";") if x.strip()]
+    except ValueError:
+        return "model answered " + mline
+    if len(mtr) != len(trace):
+        return "iterations: implementation %d, model %d" % (len(trace), len(mtr))
+    for k, ((tt, eid_, _snap), m) in enumerate(zip(trace, mtr)):
+        want = "~" if eid_ is None else str(eid_)
+        if m[1] != want:
+            return "iteration %d: implementation attempted %s at %r, model %s at %s" % (k, want, tt, m[1], m[0])
+        if not close(tt, F(m[0])):
+            return "iteration %d (entry %s): implementation at virtual time %r, model at %s" % (k, want, tt, m[0])
+    if not close(fb, F(mfb.strip())):
+        return "final in_backoff: implementation %r, model %s" % (fb, mfb.strip())
+    return None
+
+
+def loop_correspondence(env, rng, ncases, cov):
+    all_lines, all_reals, starts = [], [], []
+    for _ in range(ncases):
+        lines, reals = loop_case(env, rng)
+        starts.append(len(all_lines))
+        all_lines += lines
+        all_reals += reals
+    model = run_driver("sched", all_lines)
+    dis = []
+    st = {"cases": ncases, "iterations": 0, "idle_iterations": 0, "attempts": 0, "first_attempts": 0, "reattempts_of_failed": 0,
+          "work": {w: 0 for w in WORK}}
+    for k, (r, m) in enumerate(zip(all_reals, model)):
+        d = compare_loop(r, m) if r[0] == "loop" else compare(r, m)
+        if r[0] == "loop":
+            seen = set()
+            for (tt, e_, _snap), (w, _d) in zip(r[1], r[3]):
+                st["iterations"] += 1
+                if e_ is None:
+                    st["idle_iterations"] += 1
+                else:
+                    st["attempts"] += 1
+                    st["work"][w] += 1
+                    st["first_attempts" if e_ not in seen else "reattempts_of_failed"] += 1
+                    seen.add(e_)
+        if d and d != "UNMODELLED":
+            t = max(i for i, s0 in enumerate(starts) if s0 <= k)
+            dis.append({"layer": "loop", "lines": all_lines[starts[t]:k + 1], "implementation": repr(r[:3]), "model": m, "what": d})
+            if len(dis) >= 3:
+                break
+    cov["loop_histogram"] = st
+    sample = {"line": all_lines[starts[0] + len(LOOP_PATHS) + 1:starts[1] if len(starts) > 1 else None][-1],
+              "implementation_trace": [x[:2] for x in all_reals[(starts[1] if len(starts) > 1 else len(all_reals)) - 1][1]]}
+    return all_lines, dis, sample
+
+
 # ------------------------------------------------------------------ property oracle (search after a break)
 
 def spec_eligible(prio, lc, rc, now, age):
@@ -721,6 +1009,15 @@ class Checker:
             rel = {tb.eid(x): (will and x is not me and spec_related(tb, me, x)) for x in tb.pending()}
         r = tb.apply(op)
         after = tb.obs()
+        pend = set(after[2])
+        for (i, _p, lc, rc, _lp, _rp, lo, ro) in after[1]:
+            if ((truthy(lc) and lo) or (truthy(rc) and ro)) and i not in pend:
+                return {"statement": "reachable_inv / changeSt_complete: an entry with a changed side that has an id must be pending "
+                                     "(otherwise its change is never scheduled)", "entry": i, "changed": [lc, rc], "has_id": [lo, ro],
+                        "pending_set": sorted(pend)}
+            if i in pend and not (truthy(lc) or truthy(rc)):
+                return {"statement": "reachable_inv / changeSt_sound: a pending entry must carry a change", "entry": i,
+                        "changed": [lc, rc], "pending_set": sorted(pend)}
         if op[0] == "change":
             return check_query(tb, op, r[1], None)
         if op[0] in ("update", "mark"):
@@ -736,18 +1033,22 @@ class Checker:
             stamps.append(c)
         elif op[0] == "punt":
             i = op[1]
-            (_, p0, l0, r0), (_, p1, l1, r1) = before[1][i], after[1][i]
+            (_, p0, l0, r0), (_, p1, l1, r1) = before[1][i][:4], after[1][i][:4]
+            has_oid = before[1][i][6:8]
             ps = tb.state._punt_secs
             if p1 != p0 + 1:
                 return {"statement": "punt: raises the priority by one", "before": p0, "after": p1}
             for s, (a, b) in enumerate(((l0, l1), (r0, r1))):
-                if truthy(a) and not (truthy(b) and a <= b <= a + ps[s] + 1e-9):
+                if truthy(a) and has_oid[s] and not (truthy(b) and a <= b <= a + ps[s] + 1e-9):
                     return {"statement": "punt_bounded_delay: one punt delays a changed side by at most punt_secs",
                             "side": s, "before": a, "after": b, "punt_secs": ps[s]}
+                if truthy(a) and not (b == 0 or a <= b <= a + ps[s] + 1e-9):
+                    return {"statement": "punt_bounded_delay: a punt shifts a change time by at most punt_secs (or drops the stale flag "
+                                         "of an id-less side)", "side": s, "before": a, "after": b, "punt_secs": ps[s]}
                 if not truthy(a) and truthy(b):
                     return {"statement": "punt: does not invent a change", "side": s, "before": a, "after": b}
         elif op[0] == "finished":
-            for (i, p0, l0, r0), (_, p1, l1, r1) in zip(before[1], after[1]):
+            for (i, p0, l0, r0), (_, p1, l1, r1) in zip([x[:4] for x in before[1]], [x[:4] for x in after[1]]):
                 if (l0, r0) != (l1, r1):
                     return {"statement": "finished_entries: finished does not move change times", "entry": i,
                             "before": [l0, r0], "after": [l1, r1]}
@@ -892,34 +1193,53 @@ def run(res, tier, seed, proof_broken, replay):
         lines, reals, model, dis, unmodelled, skipped, samples = correspondence(env, rng, ntab, nops, cov)
         distinct = query_stats(lines, reals, cov)
         nq = cov["query_histogram"]["queries"]
+        # 3b. the loop: real Runnable.run / SyncManager.do / _sync_one_entry with scripted sync work vs Model/SchedLoop.lean
+        nloop = 150 if tier == "quick" else 3000
+        loop_lines, ldis, loop_sample = loop_correspondence(env, rng_for(seed, "c17loop"), nloop, cov)
+        samples.append({"loop": loop_sample})
         res.coverage.update(cov)
         res.coverage.update({
-            "evaluations": len(lines), "programs": ntab, "distinct_nontrivial": distinct,
-            "rule": "random tables built through the real SyncState API (update / ent[side].oid,path,sync_path,changed writes / mark_changed / "
-                    "punt / priority writes / set_aged / finished) with a prioritize function returning negative, zero and positive values, "
-                    "virtual clock on a 1/8 s grid incl. repeated and backward readings; after every call the full scheduling state is "
-                    "compared, and change(age) is queried for ages 0..100 at the current time, at exact ageing boundaries and later; "
-                    "distinct = distinct (age, pending rows relative to now) among queries with >= 2 pending entries that returned an entry",
-            "samples": samples, "disagreements_checked": len(dis), "change_queries": nq, "unmodelled": unmodelled,
+            "evaluations": len(lines) + len(loop_lines), "programs": ntab + nloop, "distinct_nontrivial": distinct,
+            "rule": "(a) random tables built through the real SyncState API (update with and without a path / ent[side].oid,path,sync_path,"
+                    "changed writes on sides with and without an id / mark_changed / punt / priority writes / set_aged / finished) with a "
+                    "prioritize function returning negative, zero and positive values and scripted provider answers for the fill-in loop, "
+                    "virtual clock on a 1/8 s grid incl. repeated and backward readings; after every call the full scheduling state "
+                    "(priorities, change stamps, paths, changeset order, last stamp) is compared, and change(age) is queried for ages 0..100 "
+                    "at the current time, at exact ageing boundaries and later; distinct = distinct (age, pending rows relative to now) among "
+                    "queries with >= 2 pending entries that returned an entry.  (b) the loop: tables of 2-7 unrelated entries, then the real "
+                    "Runnable.run/SyncManager.do/_sync_one_entry stepped under the virtual clock with the sync work scripted "
+                    "(finish / punt / requeue / raise, with durations); per iteration the virtual time and the entry attempted, and the final "
+                    "in_backoff, are compared with Model/SchedLoop.lean",
+            "samples": samples, "disagreements_checked": len(dis) + len(ldis), "change_queries": nq, "unmodelled": unmodelled,
             "queries_skipped_float_fragile": skipped, "fingerprints": fingerprints(FP_SPEC),
             "set_order": "insertion-ordered set injected into cloudsync.sync.state; model mirrors the order (ties compared)",
         })
         res.assumptions += ["binary floating point in the implementation vs Rat in the model: states compared with relative tolerance 1e-9; "
                             "queries whose outcome could hinge on rounding (a non-grid stamp within 1e-6 of the threshold or of another key) are not asked (counted)",
                             "iteration order of the changeset: one admissible order (insertion order) is selected by the harness",
-                            "shuffle=True and the missing-path fill-in loop of change() are not modelled; generator keeps a path on every changed side"]
+                            "shuffle=True, removal of an id, DIRECTORY path changes and provider answers with a different hash are not modelled",
+                            "loop tie: entries of one table are unrelated (finished() resets no priority), no new work arrives while the loop "
+                            "runs, the sync work itself is scripted; all loop parameters dyadic so Runnable's float arithmetic is exact"]
         broken = list(proof_broken)
         if dis:
             broken.append("correspondence sched-layer: %s" % dis[0]["what"])
+        if ldis:
+            broken.append("correspondence loop-layer: %s" % ldis[0]["what"])
         if unmodelled:
             res.notes.append("%d lines hit an unmodelled branch" % unmodelled)
         if broken:
             hit = oracle(env, seed, tier)
+            if not hit:
+                lrng = rng_for(seed, "c17loopsearch")
+                for _ in range(600 if tier == "quick" else 6000):
+                    hit = loop_oracle(loop_case(env, lrng)[1][-1])
+                    if hit:
+                        break
             if hit:
                 res.violation({"property": PID, "kind": "statement fails on implementation", "failing": hit, "broken": broken})
             else:
                 res.violation({"property": PID, "kind": "proof obligation or correspondence no longer checks", "broken": broken,
-                               "first_disagreements": dis[:3]}, no_input=True)
+                               "first_disagreements": (dis + ldis)[:3]}, no_input=True)
 
 
 if __name__ == "__main__":
